@@ -350,6 +350,23 @@ impl GenerationPass for AvailableValuePass {
                 rule_known_values_to_stack(&mut out_memory_n, &node.reg_values_in());
                 // TODO stack reset?
 
+                // "The value read from CSR c" stands for what c holds now (it is resolved against
+                // what is known about c, and about memory addressed through c, later on). A write
+                // to c, or a call (the callee may write any CSR), ends that: a register or stack
+                // slot that still holds such a value is a pointer into the past
+                let csr_changes = |value: &AvailableValue| {
+                    matches!(value, AvailableValue::ValueInCsr(csr)
+                        if node.calls_to().is_some() || written_csr(&node.node()).as_ref() == Some(csr))
+                };
+                out_reg_n = out_reg_n
+                    .into_iter()
+                    .filter(|(_, value)| !csr_changes(value))
+                    .collect();
+                out_memory_n = out_memory_n
+                    .into_iter()
+                    .filter(|(_, value)| !csr_changes(value))
+                    .collect();
+
                 // The zero register never holds anything but zero, whatever is written to it
                 out_reg_n -= Register::const_zero_set().iter();
 
